@@ -92,7 +92,19 @@ pub fn layout_only(x: &str, o: &FmtOpts, origin: &str, with_emit: bool) -> Outco
     }
     let mut classes = vec![];
     if with_emit {
-        let bx = front::build(&[("a.veryl".into(), x.to_string())], &md, true);
+        // a crash of the analyzer on x itself is C11's business: here it only
+        // means "x does not analyse cleanly", so clause 4 does not apply
+        let bx = std::panic::catch_unwind(|| front::build(&[("a.veryl".into(), x.to_string())], &md, true));
+        let bx = match bx {
+            Ok(b) => b,
+            Err(_) => {
+                classes.push("analyzer_panicked_on_x(left to C11)".to_string());
+                if std::env::var("VERIF_DUMP_X").is_ok() {
+                    eprintln!("--- x ({origin}) ---\n{x}\n---");
+                }
+                None
+            }
+        };
         if let Some(bx) = bx
             && !bx.has_error()
         {
